@@ -70,6 +70,27 @@ def alphabet(w, tier):
             add(f'run(ring={ring},ip={ip})', lambda m, c, ring=ring, ip=ip: c['run'](m, ring, ip, None))
     for poke in ('get0', 'set0', 'set_far', 'set_top', 'get_top', 'add_segment', 'reinit', 'reinit_rejected', 'set_words_wrap', 'run_nested'):
         add(f'run(device:{poke})', lambda m, c, poke=poke: c['run'](m, 2, 0, poke))
+    class Truthy:
+        def __init__(self, v):
+            self.v = v
+
+        def __bool__(self):
+            return self.v
+    for label, make in (('fresh int', lambda k: 1000 + k), ('fresh float', lambda k: 0.5 * k), ('object with __bool__', lambda k: Truthy(k % 2 == 0)),
+                        ('fresh list', lambda k: [k] * (k % 2)), ('fresh str', lambda k: 'x' * (k % 3))):
+        for ring in (0, 3):
+            def run_fresh(m, c, make=make, ring=ring):
+                box = [0]
+
+                def rd():
+                    box[0] += 1
+                    if box[0] > 12:
+                        raise EOFError()
+                    return make(box[0])
+                m.add_segment(0, 8)
+                m.set_words(0, [0, 3 * c['w'] + c['w'].bit_length(), 0, 0, 0, 0, 0, 0])
+                return m.run(rd, lambda b: None, EOFError, last_ops_length=ring)
+            add(f'run(read returns {label},ring={ring})', run_fresh)
     add('__init__ again', lambda m, c: m.__init__(c['w']))
     add('__init__ other width', lambda m, c: m.__init__(8 if c['w'] != 8 else 64, flat_max_words=3))
     add('__init__ rejected (bad width)', lambda m, c: m.__init__(7))
